@@ -51,6 +51,11 @@ def maxHistSize : Nat := 32768
 def init (bits : Bits) (prevCap : Nat := 0) : FState :=
   { bits := bits, total := bits.length, dict := Dict.init maxHistSize prevCap }
 
+/-- `Reset` on a reader in an arbitrary state: everything is re-initialised except the window's
+    backing array, which is re-sliced with its stale contents (`dict: zr.dict` + `dict.Init`). -/
+def reset (s : FState) (bits : Bits) : FState :=
+  { bits := bits, total := bits.length, dict := Dict.initOver maxHistSize s.dict.cap s.dict.hist }
+
 abbrev M := Except FErr
 
 def readBits (n : Nat) (bits : Bits) : M (Nat × Bits) :=
